@@ -20,13 +20,19 @@ THREADS = [1, 2, 3, 8, 16, 64]
 
 
 def big_chain(r0, coin, nblk=3):
+    POOL = [r0.randbytes(20) for _ in range(3)]
+    POOLK = b'\x03' + r0.randbytes(32)
+
     def txs_fn(h, c):
         ntx = r0.choice([1, 2, 40, 300]) if h else 3
         txs = [btc.coinbase(h, None, outs=[{'val': 50 * 10 ** 8, 'spk': btc.p2pkh(r0.randbytes(20))}, {'val': 0, 'spk': b'\x6a' + btc.push(b'h%d' % h)}])]
         for k in range(ntx - 1):
             nout = r0.choice([1, 2, 3, 200]) if k % 37 == 0 else r0.randrange(1, 4)
+            # a small pool of hashes under all templates: neighbouring outputs often carry the same 20 bytes in different roles
             outs = [{'val': r0.randrange(10 ** 9), 'spk': r0.choice([btc.p2pkh(r0.randbytes(20)), btc.p2sh(r0.randbytes(20)), b'\x6a' + btc.push(b'o%d-%d' % (k, j)),
-                                                                  btc.p2pk(b'\x02' + r0.randbytes(32)), b'\x00\x14' + r0.randbytes(20)])} for j in range(nout)]
+                                                                  btc.p2pk(b'\x02' + r0.randbytes(32)), b'\x00\x14' + r0.randbytes(20)]
+                                                                 + [f(x) for x in POOL[:2] for f in (btc.p2pkh, btc.p2sh)] * 2
+                                                                 + [btc.p2pk(POOLK), btc.p2sh(btc.hash160(POOLK)), btc.p2pkh(btc.hash160(POOLK))])} for j in range(nout)]
             txs.append({'ver': 1, 'ins': [{'txid': r0.randbytes(32), 'idx': k, 'sig': r0.randbytes(20), 'seq': 0xffffffff}], 'outs': outs, 'lock': k})
         return txs
     return chains.std_chain(nblk, coin, txs_fn=txs_fn)
@@ -77,19 +83,29 @@ def main(ck, tier, w):
     before = digest_dir(base)
     idx_before = index_dump(base)
     exp_csv, _ = ref.csv_expected(list(enumerate(blocks)), coin)
+    # the coins with their own script evaluator as well
+    fcoin = ['litecoin', 'dogecoin', 'namecoin'][seed % 3]
+    fblocks = big_chain(r0, fcoin)
+    fbase = datadir.simple_dir(w.sub('dd'), fblocks, fcoin).write()
+    fexp_csv, _ = ref.csv_expected(list(enumerate(fblocks)), fcoin)
+    bases = {coin: (base, blocks, exp_csv), fcoin: (fbase, fblocks, fexp_csv)}
     cbs = ['csvdump', 'unspentcsvdump', 'balances', 'simplestats', 'opreturn']
     jobs = []
     for cb in cbs:
         for t in (THREADS if not quick else [1, 2, 8, 64]):
             for rep in range(1 if quick else 3):
-                jobs.append((cb, t, rep, r0.randrange(1 << 30) if rep or t > 1 else None))
+                jobs.append((cb, t, rep, r0.randrange(1 << 30) if rep or t > 1 else None, coin))
+    for cb in cbs[:3]:
+        for t in (THREADS if not quick else [1, 3, 16]):
+            for rep in range(1 if quick else 2):
+                jobs.append((cb, t, rep, r0.randrange(1 << 30) if rep or t > 1 else None, fcoin))
 
     def one(j):
-        cb, t, rep, jit = j
+        cb, t, rep, jit, cn = j
         dd = w.sub('cl')
-        shutil.copytree(base, dd)
+        shutil.copytree(bases[cn][0], dd)
         env = {'RBP_VERIF_JITTER': str(jit)} if jit is not None else None
-        r = run.run_parser(dd, cb, dump=w.mk('out') if cb in ('csvdump', 'unspentcsvdump', 'balances') else None, threads=t, env=env, timeout=180)
+        r = run.run_parser(dd, cb, dump=w.mk('out') if cb in ('csvdump', 'unspentcsvdump', 'balances') else None, threads=t, env=env, timeout=180, coin=cn)
         shutil.rmtree(dd, ignore_errors=True)
         return j, r
     ran = chains.pmap(one, jobs)
@@ -101,15 +117,18 @@ def main(ck, tier, w):
             ck.violation('%s with %d threads fails (exit %d): %s' % (cb, j[1], r.rc, r.stderr[-300:]), {'run': j, 'observed': r.brief(), 'tags': []})
             continue
         o = observable(cb, r)
-        if cb not in ref_obs:
-            ref_obs[cb] = (o, j)
-            if cb == 'csvdump':
-                for f, data in exp_csv.items():
-                    if r.files.get('%s-0-%d.csv' % (f, len(blocks) - 1)) != data:
-                        ck.violation('csvdump %s differs from the reference rendering' % f, {'run': j, 'observed': r.brief(), 'tags': []})
-        elif o != ref_obs[cb][0]:
-            ck.violation('%s output with RAYON_NUM_THREADS=%d jitter=%s differs from the run with %d threads' % (cb, j[1], j[3], ref_obs[cb][1][1]),
-                         {'run': j, 'baseline_run': ref_obs[cb][1], 'observed': r.brief(), 'tags': []})
+        key = (cb, j[4])
+        if cb == 'csvdump':
+            # every run against the reference rendering (a result that is the same wrong one in every run is no better)
+            for f, data in bases[j[4]][2].items():
+                if r.files.get('%s-0-%d.csv' % (f, len(bases[j[4]][1]) - 1)) != data:
+                    ck.violation('%s csvdump %s with %d threads differs from the reference rendering' % (j[4], f, j[1]), {'run': j, 'observed': r.brief(), 'tags': []})
+                    break
+        if key not in ref_obs:
+            ref_obs[key] = (o, j)
+        elif o != ref_obs[key][0]:
+            ck.violation('%s %s output with RAYON_NUM_THREADS=%d jitter=%s differs from the run with %d threads' % (j[4], cb, j[1], j[3], ref_obs[key][1][1]),
+                         {'run': j, 'baseline_run': ref_obs[key][1], 'observed': r.brief(), 'tags': []})
 
     # ---- T: evaluation orders really observed, validated against Par.tla ---------------------------
     NTX, NOUT = 12, 5
